@@ -30,9 +30,10 @@ VARIABLES
   sess,   \* [handle -|-> [repo, alg, expect, parts, off, open]]  upload sessions ever created (open or gone)
   nsess,  \* number of session handles handed out so far ("s1", "s2", ...)
   young,  \* [repo -> SUBSET digests]       blobs younger than the grace period (for collection)
+  base,   \* [blob, man, tag]: what the directory below a memory store holds (a memory store restarts from it)
   resp    \* predicted response of the last action (output only)
 
-vars == <<env, blob, man, tag, sess, nsess, young, resp>>
+vars == <<env, blob, man, tag, sess, nsess, young, base, resp>>
 
 -----------------------------------------------------------------------------
 \* catalogue access
@@ -129,7 +130,10 @@ UpPost(r, dig, alg, mount, from, chunk) ==
        THEN resp' = Refused /\ UNCHANGED <<blob, sess, nsess, young>>
   ELSE IF dig # "" THEN
        \* monolithic upload: an existing blob is acknowledged without reading the body
-       IF dig \in blob[r] THEN resp' = [Ok(201) EXCEPT !.dig = dig] /\ UNCHANGED <<blob, sess, nsess, young>>
+       \* (when the body does not match, acknowledging the existing blob and refusing the body are both fine)
+       IF dig \in blob[r] THEN /\ resp' = IF DataIs(<< <<chunk.c, chunk.p>> >>, dig) THEN [Ok(201) EXCEPT !.dig = dig]
+                                            ELSE [Refused EXCEPT !.class = "any"]
+                              /\ UNCHANGED <<blob, sess, nsess, young>>
        ELSE IF DataIs(<< <<chunk.c, chunk.p>> >>, dig)
             THEN /\ blob' = [blob EXCEPT ![r] = @ \cup {dig}]
                  /\ young' = [young EXCEPT ![r] = @ \cup {dig}]
@@ -300,16 +304,32 @@ RefsGet(r, S, filter) ==
   /\ resp' = IF Cfg.referrers THEN Ok(200) ELSE Refused
 
 -----------------------------------------------------------------------------
-\* Restart: close the server and open a new one on the same directory.  Upload sessions do not survive;
-\* a pure memory store starts empty, every other store presents the same content.
+\* Restart: close the server and open a new one on the same directory.  Upload sessions do not survive; a memory
+\* store (pure, or layered over a directory it never writes to) starts again from what that directory holds (base),
+\* a directory store presents the same content (the collection it runs on Close is bound by the trace specification).
+Volatile == env.store \in {"mem", "memdir"}
 Restart ==
   /\ sess' = [h \in DOMAIN sess |-> [sess[h] EXCEPT !.open = FALSE]]
   /\ resp' = Ok(0)
-  /\ UNCHANGED nsess
-  /\ IF env.store \in {"mem", "memdir"}      \* memory stores never write to the directory below them
-     THEN /\ blob' = [r \in Repos |-> {}] /\ man' = [r \in Repos |-> <<>>]
-          /\ tag' = [r \in Repos |-> <<>>] /\ young' = [r \in Repos |-> {}]
+  /\ UNCHANGED <<nsess, base, env>>
+  /\ IF Volatile
+     THEN /\ blob' = base.blob /\ man' = base.man /\ tag' = base.tag
+          /\ young' = [r \in Repos |-> young[r] \cap base.blob[r]]
      ELSE UNCHANGED <<blob, man, tag, young>>
+
+\* Reconf: close the server, open a new one with another configuration and store kind on the same directory
+\* (read-only, memory over the directory, APIs switched off ...).
+Reconf(nc) ==
+  /\ sess' = [h \in DOMAIN sess |-> [sess[h] EXCEPT !.open = FALSE]]
+  /\ resp' = Ok(0)
+  /\ UNCHANGED nsess
+  /\ env' = [env EXCEPT !.cfg = nc, !.store = nc.store]
+  /\ IF Volatile
+     THEN /\ blob' = base.blob /\ man' = base.man /\ tag' = base.tag
+          /\ young' = [r \in Repos |-> young[r] \cap base.blob[r]]
+          /\ UNCHANGED base
+     ELSE /\ UNCHANGED <<blob, man, tag, young>>
+          /\ base' = [blob |-> blob, man |-> man, tag |-> tag]
 
 -----------------------------------------------------------------------------
 \* Garbage collection policy (C05, C06).  internal/store/store.go: repoGarbageCollect.
@@ -382,28 +402,30 @@ InitState ==
   /\ man = [r \in Repos |-> <<>>]
   /\ tag = [r \in Repos |-> <<>>]
   /\ young = [r \in Repos |-> {}]
+  /\ base = [blob |-> [r \in Repos |-> {}], man |-> [r \in Repos |-> <<>>], tag |-> [r \in Repos |-> <<>>]]
   /\ sess = <<>>
   /\ nsess = 0
   /\ resp = R0
 
 \* dispatch on an operation record (the JSON shape the harness logs and TLC generates)
 Do(op) ==
-  CASE op.op = "UpPost"   -> UpPost(op.repo, op.dig, op.alg, op.mount, op.from, op.chunk) /\ UNCHANGED <<env, man, tag>>
-    [] op.op = "UpPatch"  -> UpPatch(op.repo, op.sess, op.cr, op.st, op.chunk) /\ UNCHANGED <<env, man, tag>>
-    [] op.op = "UpPut"    -> UpPut(op.repo, op.sess, op.cr, op.st, op.dig, op.chunk) /\ UNCHANGED <<env, man, tag>>
-    [] op.op = "UpGet"    -> UpGet(op.repo, op.sess) /\ UNCHANGED <<env, man, tag>>
-    [] op.op = "UpDel"    -> UpDel(op.repo, op.sess) /\ UNCHANGED <<env, man, tag>>
-    [] op.op = "BlobGet"  -> BlobGet(op.repo, op.dig, op.range) /\ UNCHANGED <<env, man, tag>>
-    [] op.op = "BlobDel"  -> BlobDel(op.repo, op.dig) /\ UNCHANGED <<env, man, tag>>
-    [] op.op = "ManPut"   -> ManPut(op.repo, op.ref, op.ctype, op.body, op.dparam) /\ UNCHANGED env
-    [] op.op = "ManGet"   -> ManGet(op.repo, op.ref, op.range) /\ UNCHANGED env
-    [] op.op = "ManDel"   -> ManDel(op.repo, op.ref) /\ UNCHANGED env
-    [] op.op = "TagsList" -> TagsList(op.repo, op.ni, op.last) /\ UNCHANGED env
-    [] op.op = "Restart"  -> Restart /\ UNCHANGED env
-    [] op.op = "GC"       -> GC(op.repo) /\ UNCHANGED env
-    [] op.op = "GCPass"   -> GCPass /\ UNCHANGED env
-    [] op.op = "Age"      -> Age(op.repo) /\ UNCHANGED <<env>>
-    [] OTHER              -> UNCHANGED <<env, blob, man, tag, sess, nsess, young>> /\ resp' = R0
+  CASE op.op = "UpPost"   -> UpPost(op.repo, op.dig, op.alg, op.mount, op.from, op.chunk) /\ UNCHANGED <<env, base, man, tag>>
+    [] op.op = "UpPatch"  -> UpPatch(op.repo, op.sess, op.cr, op.st, op.chunk) /\ UNCHANGED <<env, base, man, tag>>
+    [] op.op = "UpPut"    -> UpPut(op.repo, op.sess, op.cr, op.st, op.dig, op.chunk) /\ UNCHANGED <<env, base, man, tag>>
+    [] op.op = "UpGet"    -> UpGet(op.repo, op.sess) /\ UNCHANGED <<env, base, man, tag>>
+    [] op.op = "UpDel"    -> UpDel(op.repo, op.sess) /\ UNCHANGED <<env, base, man, tag>>
+    [] op.op = "BlobGet"  -> BlobGet(op.repo, op.dig, op.range) /\ UNCHANGED <<env, base, man, tag>>
+    [] op.op = "BlobDel"  -> BlobDel(op.repo, op.dig) /\ UNCHANGED <<env, base, man, tag>>
+    [] op.op = "ManPut"   -> ManPut(op.repo, op.ref, op.ctype, op.body, op.dparam) /\ UNCHANGED <<env, base>>
+    [] op.op = "ManGet"   -> ManGet(op.repo, op.ref, op.range) /\ UNCHANGED <<env, base>>
+    [] op.op = "ManDel"   -> ManDel(op.repo, op.ref) /\ UNCHANGED <<env, base>>
+    [] op.op = "TagsList" -> TagsList(op.repo, op.ni, op.last) /\ UNCHANGED <<env, base>>
+    [] op.op = "Restart"  -> Restart
+    [] op.op = "GC"       -> GC(op.repo) /\ UNCHANGED <<env, base>>
+    [] op.op = "GCPass"   -> GCPass /\ UNCHANGED <<env, base>>
+    [] op.op = "Age"      -> Age(op.repo) /\ UNCHANGED <<env, base>>
+    [] op.op = "Reconf"   -> Reconf(op.newcfg)
+    [] OTHER              -> UNCHANGED <<env, base, blob, man, tag, sess, nsess, young>> /\ resp' = R0
 
 -----------------------------------------------------------------------------
 \* Invariants of the model (checked exhaustively in MCRegistry)
